@@ -26,7 +26,12 @@ func (ld CheckLockedUndDecorator) AnteHandle(ctx sdk.Context, tx sdk.Tx, simulat
 
 	feePayer := feeTx.FeePayer()
 
-	if (wrkchain.CheckIsWrkChainTx(feeTx) || beacon.CheckIsBeaconTx(feeTx)) && ld.entk.IsLocked(ctx, feePayer) {
+	// with a fee granter the fee is deducted from the granter's account (see DeductFeeDecorator), so
+	// none of the fee payer's locked FUND is needed - unlocking it would only turn it into spendable FUND
+	feeGranter := feeTx.FeeGranter()
+	payerPaysFee := feeGranter == nil || feeGranter.Equals(feePayer)
+
+	if payerPaysFee && (wrkchain.CheckIsWrkChainTx(feeTx) || beacon.CheckIsBeaconTx(feeTx)) && ld.entk.IsLocked(ctx, feePayer) {
 		// WRKChain/BEACON Tx and has locked Enterprise FUND.
 		// check for and Undelegate any Locked FUND to pay for fees
 		// We undelegate and unlock here (instead of handler) because
